@@ -304,3 +304,26 @@ Fixpoint dict_get {K V : Type} (eqb : K -> K -> bool) (k : K) (l : list (K * V))
       | None => if eqb k k' then Some v else None
       end
   end.
+
+(* ------------------------------------------------------------------ negotiated BLE fragment size
+   ble/bleak.py _determine_fragment_size / AIOHomeKitBleakClient.determine_fragment_size:
+   the ATT payload one GATT write may carry is mtu - 3 (or the backend's
+   max_write_without_response_size when that is larger; 0 = not reported); inside a secure
+   session the 16-byte tag is subtracted.  The lru_cache is keyed by every argument, i.e. it is
+   semantically transparent: the size depends on (mtu, mwwr, overhead) only, never on what
+   was asked before on the same connection. *)
+Definition att_budget (mtu mwwr : nat) : nat :=
+  if mwwr =? 0 then mtu - 3 else Nat.max mwwr (mtu - 3).
+Definition det_fs (mtu mwwr overhead : nat) : nat := att_budget mtu mwwr - overhead.
+
+(* _write_pdu on a connection with the given MTU: KEY_OVERHEAD_SIZE iff a session key is in use *)
+Definition ble_session_write (seal : N -> bytes -> bytes) (enc : bool) (ctr : N) (mtu mwwr : nat)
+           (opcode tid iid : N) (data : bytes) : res perr (list bytes * N) :=
+  ble_write (if enc then seal else seal_plain) ctr (det_fs mtu mwwr (if enc then 16 else 0)) opcode tid iid data.
+
+(* ------------------------------------------------------------------ CoAP write batch
+   write_characteristics: _write_characteristics_enter looks every (aid, iid) up in the accessory
+   database first; an unknown one is an AttributeError on None (Crash) before anything is sent.
+   [known] = per position, whether the lookup succeeds; [values] = the value TLVs. *)
+Definition coap_write_batch (known : list bool) (opcode : N) (iids : list N) (values : list bytes) : res perr bytes :=
+  if forallb (fun b => b) known then coap_encode_all opcode iids values else Crash.
